@@ -37,8 +37,8 @@ func init() {
 		Rule: "matrix cause (14: EOF / EIO on either pipe, malformed audit line, output write error on a UserLogin / a UserAction / a hold-queue flush, either input path not a pipe or missing, " +
 			"cancellation as stand-in for SIGTERM/SIGINT, invalid login) x load (idle; mid-traffic, in a third of the runs after a short session whose records all preceded its login line; saturated = the line consumer is starved until the internal buffer is full, capacities {1,2,8,64,10000}, and the audit writer " +
 			"keeps feeding after the fault; sustained = the audit writer never pauses; other-pipe-without-writer = the pipe not involved in the cause has no writer attached yet) enumerated within each group of runs, " +
-			"x log level {info, debug} x schedule policy x fault instant x (taped) one more accepted login right after the fault; after the fault a fair schedule (run-to-block, or uniformly random turns with the line consumer as the slow side under load) " +
-			"with the clock advancing at quiescence: RunNamedPipe must return within 5 simulated seconds and 50000 steps, with a non-nil error for failure causes; runs in which the injected write failure never happened are not judged; " +
+			"x log level {info, debug} x audit-metrics worker {off, on} x schedule policy x fault instant x (taped) one more accepted login right after the fault; after the fault a fair schedule (run-to-block, or uniformly random turns with the line consumer as the slow side under load) " +
+			"with the clock advancing at quiescence: RunNamedPipe must return within 5 simulated seconds and 50000 steps (plus 100 steps per record that may be queued in front of a malformed record), with a non-nil error for failure causes; runs in which the injected write failure never happened are not judged; " +
 			"non-trivial = the fault fired while the daemon was running (and, for saturated, with the buffer full); distinct = distinct (cause, load, capacity, fault instant, schedule hash)",
 		Quick: 70 * 40, Thorough: 70 * 2500,
 	})
@@ -80,6 +80,11 @@ func scnC08(rc *RunCtx) {
 	rc.Cleanup(cancel)
 	ret := &doneFlag{}
 	args := []string{"audito-maldito", "-sshd-pipe-path", sshdPath, "-auditd-pipe-path", auditPath, "-app-events-output", disk.Path}
+	if t.Choose(4, "audit.metrics") == 3 {
+		// the optional fifth worker (audit-log metrics, polling every 100 ms)
+		args = append(args, "-audit-metrics", "-audit-seconds-interval", "100ms")
+		rc.Sim.Count("c08.audit_metrics_worker")
+	}
 	if t.Choose(3, "log.level") == 2 {
 		// the daemon's own verbosity must not matter for how it stops
 		args = append(args, "-log-level", "debug")
@@ -307,14 +312,20 @@ func scnC08(rc *RunCtx) {
 	steps0 := rc.Sim.Steps
 	returned := false
 	whyNot := ""
+	// a malformed record is reached only after everything queued in front of it has been
+	// processed: the step bound grows with the backlog the load has built up
+	stepBound := 50000
+	if cause == "malformed-audit-line" && (load == "saturated" || load == "sustained") {
+		stepBound += 100 * (capacity + 1000)
+	}
 	for {
-		why := rc.Sim.RunUntil(func() bool { return ret.v }, 50000)
+		why := rc.Sim.RunUntil(func() bool { return ret.v }, stepBound)
 		if why == "stop" {
 			returned = true
 			break
 		}
-		if why == "budget" || rc.Sim.Steps-steps0 > 50000 {
-			whyNot = "more than 50000 scheduler steps"
+		if why == "budget" || rc.Sim.Steps-steps0 > stepBound {
+			whyNot = fmt.Sprintf("more than %d scheduler steps", stepBound)
 			break
 		}
 		if rc.SimNow()-t0 >= 5*time.Second {
